@@ -18,6 +18,11 @@ Monitors
 Non-real-time workers for volume (the clock is a pure object there,
 main.reset() between cases) and a real-time shard running the same programs
 on clock threads.
+* real-time 'rtc' shards (vf/c12_conc.py): functions, routines and quantised
+  tasks on known beats read clock.beats / clock.seconds repeatedly during their
+  wake-up while 1-2 plain threads poll the clocks, under sys.monitoring yield
+  injection on the main time thread's getter, _update_logical_time and the
+  TempoClock loop; every reading must be the scheduled beat / grid point.
 """
 
 import types
